@@ -60,7 +60,7 @@ func contains(a []string, s string) bool {
 }
 
 func checkLifecycle(r *ev.Run, id string) {
-	nScripts := r.N(10, 200)
+	nScripts := r.N(20, 200)
 	blocks := r.N(100, 140)
 	if id == "C24" {
 		r.Rule(chaosRule + " Unstaking times 600 s (param changes vary them), block-time steps 1 s - 4000 s so that several completion times are jumped over at once. Oracle over consecutive committed heights + the generator's ledger: a node goes Staked->Unstaking only at a height divisible by BlocksPerSession and only with a cause (an accepted begin-unstake for it, or a forced unstake: jailed longer than MaxJailedBlocks or stake below the minimum); an application only in the block of its own accepted begin-unstake; a record in the Unstaking state is never still there at a height whose block time >= its completion time, never disappears earlier, and in the block where it disappears the node's output address (application's own address) gains at least the stake - exactly the stake when the ledger shows no other flow to that address in the block - and the pool loses it; a Staked record never vanishes. Non-trivial = the history completed at least one node and one application unstaking and had a forced unstake or a jailed node unstaking; distinct = script digest.")
